@@ -805,35 +805,53 @@ def cf_state_plain(cf):
     return out
 
 
-def run_cf_history(env, edges, kinds, hist, note):
-    """Run `hist` on env['cf'].  After every call the stored arrays of env['cf'] and env['twin'] are
+class CfHistory:
+    """Runs calls on env['cf'].  After every call the stored arrays of env['cf'] and env['twin'] are
     compared bit for bit with the arrays the calls so far define (constructor arguments + the
-    set_patch_pair calls).  note(event, idx, op, detail) is told about 'changed' (first time only),
-    'twin-changed' and 'raised'.  Returns (final kinds as plain lists, the calls that were carried out)."""
-    cur = kinds_arrays(kinds)
-    twin_expected = cf_expected(edges, cur)
-    done, reported = [], set()
-    for idx, op in enumerate(hist):
+    set_patch_pair calls).  note(event, idx, op, detail) is told about 'changed' and 'twin-changed'
+    (first time only) and 'raised'."""
+
+    def __init__(self, env, edges, kinds, note):
+        self.env, self.edges, self.note = env, edges, note
+        self.cur = kinds_arrays(kinds)
+        self.twin_expected = cf_expected(edges, self.cur)
+        self.done, self.reported = [], set()
+
+    def call(self, idx, op, f=None):
+        """f: performs the call when it involves more than this CorrFunc (default: cf_call)"""
         try:
-            quiet(cf_call, env, op)
+            quiet(f, self.env, op) if f is not None else quiet(cf_call, self.env, op)
             ok = True
         except Exception as e:  # noqa: BLE001  a refusal is not a violation
             ok = False
-            note("raised", idx, op, "%s: %s" % (type(e).__name__, e))
+            self.note("raised", idx, op, "%s: %s" % (type(e).__name__, e))
         if op["op"] == "set":
             if not ok:
-                continue          # refused: not part of the history the model sees
-            cur[op["k"]]["counts"][:, op["i"], op["j"]] = np.array(op["v"], dtype=float)
-        done.append(op)
-        if "cf" not in reported and cf_stored(env["cf"]) != cf_expected(edges, cur):
-            reported.add("cf")
-            note("changed", idx, op, None)
-        if "twin" not in reported and cf_stored(env["twin"]) != twin_expected:
-            reported.add("twin")
-            note("twin-changed", idx, op, None)
-    final = {k: None if p is None else dict(auto=p["auto"], counts=p["counts"].tolist(), w1=p["w1"].tolist(), w2=p["w2"].tolist())
-             for k, p in cur.items()}
-    return final, done
+                return            # refused: not part of the history the model sees
+            self.cur[op["k"]]["counts"][:, op["i"], op["j"]] = np.array(op["v"], dtype=float)
+        self.done.append(op)
+        self.check(idx, op)
+
+    def check(self, idx, op):
+        if "cf" not in self.reported and cf_stored(self.env["cf"]) != cf_expected(self.edges, self.cur):
+            self.reported.add("cf")
+            self.note("changed", idx, op, None)
+        if "twin" not in self.reported and cf_stored(self.env["twin"]) != self.twin_expected:
+            self.reported.add("twin")
+            self.note("twin-changed", idx, op, None)
+
+    def final(self):
+        """the constructor arguments with the set_patch_pair calls applied, as plain lists"""
+        return {k: None if p is None else dict(auto=p["auto"], counts=p["counts"].tolist(), w1=p["w1"].tolist(), w2=p["w2"].tolist())
+                for k, p in self.cur.items()}
+
+
+def run_cf_history(env, edges, kinds, hist, note):
+    """-> (CfHistory after the calls of hist)"""
+    r = CfHistory(env, edges, kinds, note)
+    for idx, op in enumerate(hist):
+        r.call(idx, op)
+    return r
 
 
 def cfs_term(kinds):
@@ -936,17 +954,22 @@ def sd_stored(sd):
 
 
 def run_sd_history(env, hist, note):
-    """as run_cf_history, for a container holding (binning, data, samples); no public call stores into it"""
+    """as run_cf_history, for a container holding (binning, data, samples); no public call stores into it.
+    Returns check(idx, op), to be called again after the call the property speaks about."""
     before, twin_before = sd_stored(env["sd"]), sd_stored(env["twin"])
     reported = set()
-    for idx, op in enumerate(hist):
-        try:
-            quiet(sd_call, env, op)
-        except Exception as e:  # noqa: BLE001
-            note("raised", idx, op, "%s: %s" % (type(e).__name__, e))
+
+    def check(idx, op):
         if "sd" not in reported and sd_stored(env["sd"]) != before:
             reported.add("sd")
             note("changed", idx, op, None)
         if "twin" not in reported and sd_stored(env["twin"]) != twin_before:
             reported.add("twin")
             note("twin-changed", idx, op, None)
+    for idx, op in enumerate(hist):
+        try:
+            quiet(sd_call, env, op)
+        except Exception as e:  # noqa: BLE001
+            note("raised", idx, op, "%s: %s" % (type(e).__name__, e))
+        check(idx, op)
+    return check
